@@ -1,11 +1,13 @@
 import ZipVerif.Props.C10
 import ZipVerif.Props.C02
+import ZipVerif.Props.C02Full
 /-
 C10 (writer corollary) — every archive a fresh `ZipWriter` produces with the plain calls
 (`start_file`, `add_directory`, `add_symlink`, `write`, `set_comment`; no raw copies, no encryption)
 can be streamed: the emitted layout is `Contiguous` (no prefix, no gaps, no data descriptors) and
 `LocalSizes` (the local headers carry the sizes: they are back-patched by `finish_file`), so
-`Props.C10.stream_eq_seek` applies to it.
+`Props.C10.stream_eq_seek` applies to it.  Second half of the file: the same for the writer's WHOLE
+unencrypted alphabet (aligned entries, extra-data mode, raw copies): `writer_output_streams_full`.
 -/
 
 namespace ZipVerif.Props.C10Writer
@@ -221,6 +223,548 @@ theorem writer_output_stream_eq_seek (wext : WExt) (rext : Ext) (calls : List Ca
   obtain ⟨v, sv, res, k1, k2, k3, _, k5, k6, k7, k8, k9, _, _, k12, _⟩ := h7 i hi
   exact ⟨v, sv, res, k1, k2, k3, k5, k6, k7, k8, k9, k12⟩
 
+/-! ## Level 2: the writer's whole unencrypted alphabet
+
+Aligned entries (`start_file_aligned`), extra-data mode (`start_file_with_extra_data`, `write` into the extra
+field, `end_local_start_central_extra_data`, `end_extra_data`) and raw copies — everything the writer emits
+without encryption.  The layout theorem is `C02Full.writer_emits_layout_full`; what is added here is the
+ghost-level invariant `Tight2` (no dead bytes, every closed entry unencrypted with a decodable method and sizes
+that fit its local header), which together with `Good2` (local extra data are validated records) gives
+`LocalSizesOk`.  Raw copies: the source's method must have a decoder, and no non-empty `write` may follow the
+copy while it is the open entry (`NoStray`: such bytes land between the entries — `C01.script2`). -/
+
+/-- what `Tight2` says of a closed entry (`LocalSizesOk` minus the well-formedness of the local extra data,
+which `Good2` provides) -/
+def ST (e : Spec.Zip.Entry) : Prop :=
+  (e.flags &&& 1 == 1) = false ∧ (e.flags &&& 0x0008 != 0) = false ∧
+  (Method.fromU16 e.method).decodable = true ∧
+  (e.localZip64 = false → e.csize.toNat < 4294967296 ∧ e.usize.toNat < 4294967296) ∧
+  e.gapBefore = [] ∧ e.desc = .none
+
+/-- the open entry -/
+structure OpenT (o : Open2) : Prop where
+  junk : o.junk = []
+  enc : o.enc = none
+  encF : o.f.encrypted = false
+  meth : o.phase ≠ .localX → writable o.f.method = true
+  rawP : o.raw = true → o.phase = .data
+  rawS : o.raw = true → o.f.largeFile = false →
+    o.plain.length < 4294967296 ∧ o.f.uncompressedSize.toNat < 4294967296
+
+/-- `flag` = a raw copy may be the open entry -/
+def Tight2 (flag : Bool) : Ghost2 → Prop
+  | .idle done gap _ => gap = [] ∧ ∀ e ∈ done, ST e
+  | .opened done gap _ o => gap = [] ∧ (∀ e ∈ done, ST e) ∧ OpenT o ∧ (o.raw = true → flag = true)
+  | .dead => True
+  | .stuck .. => True
+  | .lost => True
+
+theorem decodable_of_writable {m : Method} (h : writable m = true) :
+    (Method.fromU16 m.toU16).decodable = true := by
+  rw [C01.fromU16_toU16 h]
+  cases m <;> simp_all [writable, Method.decodable]
+
+theorem not_refused_writable {c : Method} {l : Option Int} (h : ¬ Refused c l) : writable c = true := by
+  cases c with
+  | aes => exact absurd trivial h
+  | unsupported v => exact absurd trivial h
+  | stored => rfl
+  | deflated => rfl
+  | bzip2 => rfl
+  | zstd => rfl
+
+theorem flagOf_no_desc2 (f : FileData) : (flagOf f &&& 0x0008 != 0) = false := by
+  unfold flagOf
+  cases isAscii f.fileName <;> cases f.encrypted <;> decide
+
+theorem st_closed {ext : WExt} {o : Open2} (h : OpenT o) (hph : o.phase = .data) (dp : UInt16) (lv : UInt16)
+    (h1 : ¬ (o.f.largeFile = false ∧ o.plain.length > 0xFFFFFFFF))
+    (h2 : ¬ (o.f.largeFile = false ∧ UInt64.ofNat (dataOf2 ext o.f o.enc o.plain).length > ZIP64_BYTES_THR)) :
+    ST (specEntry (closedRec o.f o.cx o.plain (dataOf2 ext o.f o.enc o.plain)) dp [] o.lx
+      (dataOf2 ext o.f o.enc o.plain) lv) := by
+  refine ⟨flagOf_plain _ h.encF, flagOf_no_desc2 _, ?_, ?_, rfl, rfl⟩
+  · exact decodable_of_writable (h.meth (by rw [hph]; intro h'; cases h'))
+  · intro hl
+    have hl' : o.f.largeFile = false := hl
+    have k1 : ¬ UInt64.ofNat (dataOf2 ext o.f o.enc o.plain).length > ZIP64_BYTES_THR := fun hh => h2 ⟨hl', hh⟩
+    have k2 : ¬ o.plain.length > 0xFFFFFFFF := fun hh => h1 ⟨hl', hh⟩
+    refine ⟨toNat_le_of_not_gt k1, ?_⟩
+    show (UInt64.ofNat o.plain.length).toNat < 4294967296
+    rw [UInt64.toNat_ofNat', Nat.mod_eq_of_lt (by omega)]
+    omega
+
+theorem st_raw {o : Open2} (h : OpenT o) (hraw : o.raw = true) (dp : UInt16) (lv : UInt16) :
+    ST (specEntry o.f dp [] [] o.plain lv) := by
+  refine ⟨flagOf_plain _ h.encF, flagOf_no_desc2 _, ?_, ?_, rfl, rfl⟩
+  · exact decodable_of_writable (h.meth (by rw [h.rawP hraw]; intro h'; cases h'))
+  · intro hl
+    obtain ⟨k1, k2⟩ := h.rawS hraw hl
+    refine ⟨?_, k2⟩
+    show (UInt64.ofNat o.plain.length).toNat < 4294967296
+    rw [UInt64.toNat_ofNat', Nat.mod_eq_of_lt (by omega)]
+    exact k1
+
+theorem OpenT.finData {ext : WExt} {o : Open2} (h : OpenT o) (hph : o.phase = .data)
+    {done : List Spec.Zip.Entry} (hd : ∀ e ∈ done, ST e)
+    {es : List Spec.Zip.Entry} {gap' : Bytes} (hf : o.finData ext done [] = .ok es gap') :
+    gap' = [] ∧ ∀ e ∈ es, ST e := by
+  unfold Open2.finData at hf
+  split at hf
+  · cases hf
+  next dp hdp =>
+    split at hf
+    next hraw =>
+      cases hf
+      refine ⟨h.junk, ?_⟩
+      intro e he
+      rcases mem_snoc he with k | k
+      · exact hd e k
+      · rw [k]; exact st_raw h hraw _ _
+    · split at hf
+      · cases hf
+      next h1 =>
+        split at hf
+        · cases hf
+        · split at hf
+          · split at hf <;> cases hf
+          next h2 =>
+            cases hf
+            refine ⟨rfl, ?_⟩
+            intro e he
+            rcases mem_snoc he with k | k
+            · exact hd e k
+            · rw [k]; exact st_closed h hph _ _ h1 h2
+
+theorem OpenT.endExtra {o o' : Open2} (h : OpenT o) (hx : o.endExtra = .ok o') :
+    OpenT o' ∧ o'.phase = .data := by
+  obtain ⟨ef, er, ep, ej, _, ee, _⟩ := endExtra_fields hx
+  unfold Open2.endExtra at hx
+  split at hx
+  · cases hx
+  · split at hx
+    next hph =>
+      split at hx
+      · cases hx
+      next hr =>
+        cases hx
+        exact ⟨⟨h.junk, h.enc, h.encF, fun _ => not_refused_writable hr, fun _ => rfl, h.rawS⟩, rfl⟩
+    next hph =>
+      cases hx
+      exact ⟨⟨h.junk, h.enc, h.encF, fun _ => h.meth hph, fun _ => rfl, h.rawS⟩, rfl⟩
+
+theorem OpenT.not_raw {o : Open2} (h : OpenT o) (hph : o.phase ≠ .data) : o.raw = false := by
+  cases hr : o.raw
+  · rfl
+  · exact absurd (h.rawP hr) hph
+
+theorem OpenT.setCx {o : Open2} (h : OpenT o) (hph : o.phase ≠ .data) (x : Bytes) : OpenT { o with cx := x } :=
+  ⟨h.junk, h.enc, h.encF, h.meth, fun hr => absurd (h.rawP hr) hph, h.rawS⟩
+
+theorem OpenT.endLocal {o o' : Open2} (h : OpenT o) (hph : o.phase ≠ .data) (hx : o.endLocal = .ok o') :
+    OpenT o' ∧ o'.raw = false := by
+  unfold Open2.endLocal at hx
+  split at hx
+  next o1 hx1 =>
+    cases hx
+    obtain ⟨h1, hp1⟩ := h.endExtra hx1
+    have hraw : o1.raw = false := by rw [(endExtra_fields hx1).2.1]; exact h.not_raw hph
+    refine ⟨⟨h1.junk, h1.enc, h1.encF, fun _ => h1.meth (by rw [hp1]; intro h'; cases h'), fun hr => ?_,
+      fun hr => ?_⟩, hraw⟩
+    · have : o1.raw = true := hr
+      rw [hraw] at this; cases this
+    · have : o1.raw = true := hr
+      rw [hraw] at this; cases this
+  · cases hx
+  · cases hx
+
+theorem finData_ne_unchanged {ext : WExt} {o : Open2} {done : List Spec.Zip.Entry} {gap : Bytes} :
+    o.finData ext done gap ≠ .unchanged := by
+  unfold Open2.finData
+  split
+  · intro h; cases h
+  · split
+    · intro h; cases h
+    · split
+      · intro h; cases h
+      · split
+        · intro h; cases h
+        · split
+          · split <;> (intro h; cases h)
+          · intro h; cases h
+
+theorem Tight2.fin {ext : WExt} {flag : Bool} {g : Ghost2} (hG : Tight2 flag g)
+    {es : List Spec.Zip.Entry} {gap : Bytes} (hf : g.fin ext = .ok es gap) : gap = [] ∧ ∀ e ∈ es, ST e := by
+  cases g with
+  | dead => cases hf
+  | stuck ss n wf => cases hf
+  | lost => cases hf
+  | idle done gap0 c => cases hf; exact hG
+  | opened done gap0 c o =>
+    obtain ⟨hg0, hd, ho, _⟩ := hG
+    subst hg0
+    have hf' : o.fin ext done [] = .ok es gap := hf
+    unfold Open2.fin at hf'
+    cases hph : o.phase with
+    | data => rw [hph] at hf'; exact ho.finData hph hd hf'
+    | localX =>
+      rw [hph] at hf'
+      dsimp only at hf'
+      cases hx : o.endExtra with
+      | ok o' => rw [hx] at hf'; exact (ho.endExtra hx).1.finData (ho.endExtra hx).2 hd hf'
+      | unchanged => rw [hx] at hf'; cases hf'
+      | dead => rw [hx] at hf'; cases hf'
+    | centralX =>
+      rw [hph] at hf'
+      dsimp only at hf'
+      cases hx : o.endExtra with
+      | ok o' => rw [hx] at hf'; exact (ho.endExtra hx).1.finData (ho.endExtra hx).2 hd hf'
+      | unchanged => rw [hx] at hf'; cases hf'
+      | dead => rw [hx] at hf'; cases hf'
+
+/-- a ghost whose `finish_file` is refused without effect is in extra-data mode: not a raw copy -/
+theorem Tight2.of_unchanged {ext : WExt} {flag flag' : Bool} {g : Ghost2} (hG : Tight2 flag g)
+    (hf : g.fin ext = .unchanged) : Tight2 flag' g := by
+  cases g with
+  | dead => trivial
+  | stuck ss n wf => trivial
+  | lost => trivial
+  | idle done gap0 c => exact hG
+  | opened done gap0 c o =>
+    obtain ⟨hg0, hd, ho, _⟩ := hG
+    refine ⟨hg0, hd, ho, fun hr => ?_⟩
+    have hf' : o.fin ext done gap0 = .unchanged := hf
+    unfold Open2.fin at hf'
+    rw [ho.rawP hr] at hf'
+    exact absurd hf' finData_ne_unchanged
+
+theorem Tight2.mono {flag flag' : Bool} {g : Ghost2} (hG : Tight2 flag g) (h : flag = true → flag' = true) :
+    Tight2 flag' g := by
+  cases g with
+  | dead => trivial
+  | stuck ss n wf => trivial
+  | lost => trivial
+  | idle done gap0 c => exact hG
+  | opened done gap0 c o => exact ⟨hG.1, hG.2.1, hG.2.2.1, fun hr => h (hG.2.2.2 hr)⟩
+
+theorem Tight2.startG2 {ext : WExt} {flag flag' : Bool} {g : Ghost2} (hG : Tight2 flag g) (name : Bytes)
+    (o : FileOptions) (raw : Option (UInt32 × UInt64 × UInt64))
+    (after : List Spec.Zip.Entry → Bytes → Bytes → FileData → Ghost2)
+    (hflag : name.length > 65535 → flag = true → flag' = true)
+    (hafter : ∀ es c hs, name.length ≤ 65535 → (∀ e ∈ es, ST e) →
+      Tight2 flag' (after es [] c (mkRec name o raw hs 0))) :
+    Tight2 flag' (startG2 ext g name o raw after) := by
+  unfold WL.startG2
+  split
+  next hn => exact hG.mono (hflag hn)
+  next hn =>
+  split
+  next hf => exact hG.of_unchanged hf
+  · trivial
+  · trivial
+  · trivial
+  next es gap hf =>
+    obtain ⟨hgap, hes⟩ := hG.fin hf
+    subst hgap
+    split
+    · trivial
+    next f dp hsr =>
+      rw [startRec2_rec hsr]
+      exact hafter es _ _ (by omega) hes
+
+theorem openT_new (name : Bytes) (o : FileOptions) (hs : Nat) (plain : Bytes) (wf : Bool) (ph : Phase)
+    (henc : o.encryptWith = none) (hm : ph ≠ .localX → writable o.method = true) :
+    OpenT (newOpen (mkRec name o none hs 0) false plain wf none ph) :=
+  ⟨rfl, rfl, (by show o.encryptWith.isSome = false; rw [henc]; rfl), hm, (fun h => by cases h),
+    (fun h => by cases h)⟩
+
+/-- The writer's unencrypted alphabet: `Level2R`, no encryption option, raw copies of entries whose method
+has a decoder. -/
+def Plain2 (c : Call) : Prop :=
+  Level2R c ∧ match c with
+    | .startFile _ o => o.encryptWith = none
+    | .addDirectory _ o => o.encryptWith = none
+    | .addSymlink _ _ o => o.encryptWith = none
+    | .rawCopy src _ _ => writable src.method = true
+    | _ => True
+
+instance : DecidablePred Plain2 := fun c => by
+  unfold Plain2
+  cases c <;> infer_instance
+
+/-- may a raw copy be the open entry after the call? (a call that starts an entry replaces the open entry
+unless its name is refused) -/
+def flagAfter (flag : Bool) : Call → Bool
+  | .rawCopy _ _ _ => true
+  | .startFile n _ => flag && decide (n.length > 65535)
+  | .addDirectory n _ => flag && decide ((dirName n).length > 65535)
+  | .addSymlink n _ _ => flag && decide (n.length > 65535)
+  | .startFileWithExtraData n _ => flag && decide (n.length > 65535)
+  | .startFileAligned n _ _ => flag && decide (n.length > 65535)
+  | _ => flag
+
+/-- no non-empty `write` while a raw copy may be the open entry (the bytes would land behind the copied
+data, between the entries: `C01.script2`) -/
+def writeOk (flag : Bool) : Call → Prop
+  | .write b => flag = true → b = []
+  | _ => True
+
+instance (flag : Bool) : DecidablePred (writeOk flag) := fun c => by
+  cases c <;> unfold writeOk <;> infer_instance
+
+def NoStray : Bool → List Call → Prop
+  | _, [] => True
+  | flag, c :: cs => writeOk flag c ∧ NoStray (flagAfter flag c) cs
+
+instance instDecNoStray : ∀ (flag : Bool) (cs : List Call), Decidable (NoStray flag cs)
+  | _, [] => isTrue trivial
+  | flag, c :: cs => by
+    unfold NoStray
+    have := instDecNoStray (flagAfter flag c) cs
+    infer_instance
+
+theorem flag_and_long {flag : Bool} {n : Nat} (h : n > 65535) :
+    flag = true → (flag && decide (n > 65535)) = true := by
+  intro hf; simp [h, hf]
+
+theorem tight2_step (ext : WExt) (flag : Bool) (g : Ghost2) (c : Call) (hc : Plain2 c)
+    (hw : writeOk flag c) (out : Out (Option Nat)) (hG : Tight2 flag g) : Tight2 (flagAfter flag c) (ghostStep2 ext g c out) := by
+  obtain ⟨⟨⟨ha, hx⟩, hr⟩, hp⟩ := hc
+  unfold ghostStep2
+  split
+  · trivial
+  cases c with
+  | startFile n o =>
+    apply hG.startG2 _ _ _ _ (fun h => flag_and_long h)
+    intro es c0 hs hn hes
+    split
+    next hok =>
+      have hwr : writable (fileOpts o).method = true := by
+        cases h1 : okO out <;> rw [h1] at hok <;> simp at hok
+        exact hok
+      have henc : o.encryptWith = none := hp
+      rw [henc]
+      exact ⟨rfl, hes, openT_new n (fileOpts o) hs [] true .data henc (fun _ => hwr), fun h => by cases h⟩
+    · trivial
+  | addDirectory n o =>
+    apply hG.startG2 _ _ _ _ (fun h => flag_and_long h)
+    intro es c0 hs hn hes
+    split
+    · have henc : o.encryptWith = none := hp
+      rw [henc]
+      exact ⟨rfl, hes, openT_new (dirName n) (dirOpts o) hs [] false .data henc (fun _ => rfl),
+        fun h => by cases h⟩
+    · trivial
+  | addSymlink n t o =>
+    apply hG.startG2 _ _ _ _ (fun h => flag_and_long h)
+    intro es c0 hs hn hes
+    split
+    · have henc : o.encryptWith = none := hp
+      rw [henc]
+      exact ⟨rfl, hes, openT_new n (linkOpts o) hs t false .data henc (fun _ => rfl), fun h => by cases h⟩
+    · trivial
+  | rawCopy src raw n =>
+    apply hG.startG2 (flag' := true) _ _ _ _ (fun h => ?_)
+    · intro es c0 hs hn hes
+      split
+      · refine ⟨rfl, hes, ⟨rfl, rfl, rfl, fun _ => hp, fun _ => rfl, fun _ hl => ?_⟩, fun _ => rfl⟩
+        have hlen : raw.length = src.compressedSize.toNat := hx
+        have hle : ¬ (if src.compressedSize ≥ src.uncompressedSize then src.compressedSize
+            else src.uncompressedSize) > ZIP64_BYTES_THR :=
+          of_decide_eq_false (show decide ((if src.compressedSize ≥ src.uncompressedSize then
+            src.compressedSize else src.uncompressedSize) > ZIP64_BYTES_THR) = false from hl)
+        have hb := toNat_le_of_not_gt hle
+        show raw.length < 4294967296 ∧ src.uncompressedSize.toNat < 4294967296
+        rw [hlen]
+        by_cases hge : src.compressedSize ≥ src.uncompressedSize
+        · rw [if_pos hge] at hb
+          have : src.uncompressedSize.toNat ≤ src.compressedSize.toNat := UInt64.le_iff_toNat_le.mp hge
+          omega
+        · rw [if_neg hge] at hb
+          have : src.compressedSize.toNat < src.uncompressedSize.toNat :=
+            UInt64.lt_iff_toNat_lt.mp (UInt64.not_le.mp hge)
+          omega
+      · trivial
+    · intro _; rfl
+  | startFileWithExtraData n o =>
+    apply hG.startG2 _ _ _ _ (fun h => flag_and_long h)
+    intro es c0 hs hn hes
+    have henc : (fileOpts o).encryptWith = none := ha.2
+    exact ⟨rfl, hes, openT_new n (fileOpts o) hs [] true .localX henc (fun h' => absurd rfl h'),
+      fun h => by cases h⟩
+  | startFileAligned n o a =>
+    apply hG.startG2 _ _ _ _ (fun h => flag_and_long h)
+    intro es c0 hs hn hes
+    have henc : (fileOpts o).encryptWith = none := ha.2
+    have h1 := openT_new n (fileOpts o) hs [] true .localX henc (fun h' => absurd rfl h')
+    have hph1 : (newOpen (mkRec n (fileOpts o) none hs 0) false [] true none .localX).phase ≠ .data := by
+      intro h'; cases h'
+    unfold alignedAfter
+    dsimp only
+    split
+    · have h2 := h1.setCx hph1 (padRecord ((a.toNat -
+        ((newOpen (mkRec n (fileOpts o) none hs 0) false [] true none .localX).dataStart es [] + 4) % a.toNat) % a.toNat))
+      split
+      · exact ⟨rfl, hes, h2, fun h => by cases h⟩
+      · trivial
+      next o3 hx3 =>
+        obtain ⟨h3, hr3⟩ := h2.endLocal hph1 hx3
+        split
+        next o4 hx4 =>
+          refine ⟨rfl, hes, (h3.endExtra hx4).1, fun h => ?_⟩
+          rw [(endExtra_fields hx4).2.1, hr3] at h; cases h
+        · exact ⟨rfl, hes, h3, fun h => by rw [hr3] at h; cases h⟩
+        · trivial
+    · split
+      next o4 hx4 =>
+        refine ⟨rfl, hes, (h1.endExtra hx4).1, fun h => ?_⟩
+        rw [(endExtra_fields hx4).2.1] at h; cases h
+      · exact ⟨rfl, hes, h1, fun h => by cases h⟩
+      · trivial
+  | write b =>
+    cases g with
+    | dead => trivial
+    | stuck ss n wf =>
+      show Tight2 flag (if wf = true then (if okO out = true then
+        (if ss + (n + b.length) < 18446744073709551616 then Ghost2.stuck ss (n + b.length) wf else .lost)
+        else .dead) else .stuck ss n wf)
+      split
+      · split
+        · split <;> trivial
+        · trivial
+      · trivial
+    | lost => trivial
+    | idle done gap c0 => exact hG
+    | opened done gap c0 o =>
+      obtain ⟨hg0, hd, ho, hfl⟩ := hG
+      show Tight2 flag (match o.phase with
+        | .data => if o.wf then (if okO out then .opened done gap c0 (o.writeData b) else .dead)
+            else .opened done gap c0 o
+        | _ => .opened done gap c0 { o with cx := o.cx ++ b })
+      split
+      · split
+        · split
+          · unfold Open2.writeData
+            split
+            next hraw =>
+              have hb : b = [] := hw (hfl hraw)
+              subst hb
+              exact ⟨hg0, hd, ⟨by show o.junk ++ [] = []; rw [List.append_nil]; exact ho.junk, ho.enc,
+                ho.encF, ho.meth, ho.rawP, ho.rawS⟩, hfl⟩
+            next hraw =>
+              refine ⟨hg0, hd, ⟨ho.junk, ho.enc, ho.encF, ho.meth, ho.rawP, fun hr => absurd hr hraw⟩,
+                fun hr => absurd hr hraw⟩
+          · trivial
+        · exact ⟨hg0, hd, ho, hfl⟩
+      next hph => exact ⟨hg0, hd, ho.setCx (fun h' => hph h') _, hfl⟩
+  | endExtraData =>
+    cases g with
+    | dead => trivial
+    | stuck ss n wf => trivial
+    | lost => trivial
+    | idle done gap c0 => exact hG
+    | opened done gap c0 o =>
+      obtain ⟨hg0, hd, ho, hfl⟩ := hG
+      show Tight2 flag (if o.phase = .data then _ else _)
+      split
+      · exact ⟨hg0, hd, ho, hfl⟩
+      · split
+        next o' hx' =>
+          exact ⟨hg0, hd, (ho.endExtra hx').1, fun h => hfl (by rw [← (endExtra_fields hx').2.1]; exact h)⟩
+        · exact ⟨hg0, hd, ho, hfl⟩
+        · trivial
+  | endLocalStartCentral =>
+    cases g with
+    | dead => trivial
+    | stuck ss n wf => trivial
+    | lost => trivial
+    | idle done gap c0 => exact hG
+    | opened done gap c0 o =>
+      obtain ⟨hg0, hd, ho, hfl⟩ := hG
+      show Tight2 flag (if o.phase = .data then _ else _)
+      split
+      · exact ⟨hg0, hd, ho, hfl⟩
+      next hph =>
+        split
+        next o' hx' =>
+          obtain ⟨h3, hr3⟩ := ho.endLocal hph hx'
+          exact ⟨hg0, hd, h3, fun h => by rw [hr3] at h; cases h⟩
+        · exact ⟨hg0, hd, ho, hfl⟩
+        · trivial
+  | setComment c' =>
+    cases g with
+    | dead => trivial
+    | stuck ss n wf => trivial
+    | lost => trivial
+    | idle done gap c0 => exact hG
+    | opened done gap c0 o => exact hG
+  | finish => exact hx.elim
+  | drop => exact hx.elim
+
+theorem tight2_run (ext : WExt) : ∀ (calls : List Call) (outs : List (Out (Option Nat))) (flag : Bool)
+    (g : Ghost2), (∀ c ∈ calls, Plain2 c) → NoStray flag calls → Tight2 flag g →
+    ∃ flag', Tight2 flag' (ghostOf2 ext g calls outs)
+  | [], outs, flag, g, _, _, hG => by cases outs <;> exact ⟨flag, hG⟩
+  | c :: cs, [], flag, g, _, _, hG => ⟨flag, hG⟩
+  | c :: cs, o :: os, flag, g, hc, hs, hG =>
+    tight2_run ext cs os _ _ (fun c' h' => hc c' (by simp [h'])) hs.2
+      (tight2_step ext flag g c (hc c (by simp)) hs.1 o hG)
+
+/-- **`writer_output_streams_full`** — a fresh writer, a script over the writer's WHOLE unencrypted alphabet
+(`Plain2`: plain entries, directories, symlinks, aligned entries, extra-data mode, raw copies of entries
+whose method has a decoder; `NoStray`: no non-empty `write` into a raw copy), `finish` returns `Ok`: the sink
+is `build L` for a layout `L` that is `Contiguous` and `LocalSizes` (and `Readable`). -/
+theorem writer_output_streams_full (ext : WExt) (calls : List Call) (hc : ∀ c ∈ calls, Plain2 c)
+    (hs : NoStray false calls) (es : List Spec.Zip.Entry) (gap c : Bytes)
+    (hg : (C02Full.finalGhost2 ext calls).close ext = some (es, gap, c))
+    (v : Option Nat) (s' : WState) (d' : Dev)
+    (hfin : step ext .finish (runCalls ext calls WState.init none (Dev.ofBytes [])).2.1 none
+      (runCalls ext calls WState.init none (Dev.ofBytes [])).2.2 = (.ok (.ok v, s'), d')) :
+    d'.buf = build (layoutOf es gap c []) ∧
+    C10.Contiguous (layoutOf es gap c []) ∧ C10.LocalSizes (layoutOf es gap c []) ∧
+    (layoutOf es gap c []).Readable ∧ c.length ≤ 65535 ∧ (∀ e ∈ es, EntryOk2 e) := by
+  obtain ⟨hbuf, hok, hclen, hR⟩ := C02Full.writer_output_valid_full ext calls (fun c h => (hc c h).1)
+    es gap c hg v s' d' hfin
+  obtain ⟨fl, hT⟩ := tight2_run ext calls (runCalls ext calls WState.init none (Dev.ofBytes [])).1 false
+    (.idle [] [] []) hc hs (show Tight2 false (.idle [] [] []) from ⟨rfl, fun e he => by cases he⟩)
+  obtain ⟨hgap, hst⟩ := hT.fin (Ghost2.close_fin hg).1
+  refine ⟨hbuf, ⟨rfl, fun e he => ⟨(hst e he).2.2.2.2.1, (hst e he).2.2.2.2.2⟩, hgap⟩, fun e he => ?_,
+    hR, hclen, hok⟩
+  obtain ⟨k1, k2, k3, k4, _, k6⟩ := hst e he
+  exact ⟨by simp [Spec.Zip.Entry.hasDesc, k6], k1, k2, (hok e he).lxOk, k3, k4⟩
+
+/-- … **hence the streaming reader and the seekable reader agree on it** (`C10.stream_eq_seek`; remaining
+hypotheses: the size bounds, room for a ZIP64 record next to the central extra data, a non-empty archive
+and the property's own `NoFalseSig`). -/
+theorem writer_output_stream_eq_seek_full (wext : WExt) (rext : Ext) (calls : List Call)
+    (hc : ∀ c ∈ calls, Plain2 c) (hs : NoStray false calls)
+    (es : List Spec.Zip.Entry) (gap c : Bytes)
+    (hg : (C02Full.finalGhost2 wext calls).close wext = some (es, gap, c))
+    (v : Option Nat) (s' : WState) (d' : Dev)
+    (hfin : step wext .finish (runCalls wext calls WState.init none (Dev.ofBytes [])).2.1 none
+      (runCalls wext calls WState.init none (Dev.ofBytes [])).2.2 = (.ok (.ok v, s'), d'))
+    (hne : es ≠ []) (hN : C03.NoFalseSig (layoutOf es gap c []))
+    (hsize : (build (layoutOf es gap c [])).length < 2 ^ 63)
+    (hu : ∀ e ∈ es, e.usize.toNat < 2 ^ 63)
+    (hcx : ∀ e ∈ es, e.centralExtra.length + 28 ≤ 0xFFFF) :
+    ∃ a d1 files d2,
+      openArchive.runPure (Dev.ofBytes d'.buf) = (.ok a, d1) ∧
+      (streamEntries rext (d'.buf.length / 30 + 1)).runPure (Dev.ofBytes d'.buf) = (.ok files, d2) ∧
+      files.length = a.files.length ∧ files.length = es.length ∧
+      ∀ i, i < files.length → ∃ v sv res, a.files[i]? = some v ∧ files[i]? = some (sv, res) ∧
+        sv.fileName = v.fileName ∧ sv.method = v.method ∧ sv.time = v.time ∧ sv.crc32 = v.crc32 ∧
+        sv.compressedSize = v.compressedSize ∧ sv.uncompressedSize = v.uncompressedSize ∧
+        (∃ ds d3, (byIndexRead rext a i none).runPure d1 = (.ok (.ok (ds, res)), d3)) := by
+  obtain ⟨hbuf, hC, hS, _, hclen, hok⟩ :=
+    writer_output_streams_full wext calls hc hs es gap c hg v s' d' hfin
+  obtain ⟨hF, hR⟩ := layout_fits_readable2 gap c [] hok hclen hsize hu hcx
+  obtain ⟨a, d1, files, d2, h1, h2, _, h4, h5, _, h7⟩ :=
+    C10.stream_eq_seek rext _ hF hC hS hne hR hN (Or.inl rfl)
+  rw [hbuf]
+  refine ⟨a, d1, files, d2, h1, h2, h4, h5, ?_⟩
+  intro i hi
+  obtain ⟨v, sv, res, k1, k2, k3, _, k5, k6, k7, k8, k9, _, _, k12, _⟩ := h7 i hi
+  exact ⟨v, sv, res, k1, k2, k3, k5, k6, k7, k8, k9, k12⟩
+
 /-! ### Non-vacuity -/
 
 example : ∀ c ∈ C01.script1, Plain c ∧ c.Admissible := by decide
@@ -237,6 +781,45 @@ example :
 example :
     (match (C01.finalGhost C01.wext1 C01.script2).close C01.wext1 with
      | some (es, gap, c) => decide (¬ C10.Contiguous (layoutOf es gap c []))
+     | none => false) = true := by decide +kernel
+
+/-- Level 2: extra data split between the local and the central header, an aligned entry (`C02Full.scriptX`),
+then a raw copy of a Deflated entry, an EMPTY write into it, and a plain file behind it -/
+def scriptZ : List Call :=
+  C02Full.scriptX ++ [.rawCopy C01.srcRec [0xA, 0xB, 0xC] [0x72], .write [],
+    .startFile [0x7a] (C12.opts .stored none), .write [4]]
+
+example : (∀ c ∈ scriptZ, Plain2 c) ∧ NoStray false scriptZ := by decide
+
+/-- the hypotheses of `writer_output_streams_full` hold for it (the ghost closes, `finish` is `Ok`), and so
+does its conclusion, evaluated: four entries — extra data, padding record, raw copy, plain —, `Contiguous`,
+`LocalSizes` -/
+example :
+    (match (C02Full.finalGhost2 C02Full.wext2 scriptZ).close C02Full.wext2, C01.finishDev C02Full.wext2 scriptZ with
+     | some (es, gap, c), some d' =>
+       d'.buf == build (layoutOf es gap c []) &&
+       decide (C10.Contiguous (layoutOf es gap c [])) && decide (C10.LocalSizes (layoutOf es gap c [])) &&
+       es.map Spec.Zip.Entry.name == [[0x78], [0x79], [0x72], [0x7a]] &&
+       es.map Spec.Zip.Entry.localExtra == [C02Full.xrec, padRecord 51, [], []] &&
+       es.map Spec.Zip.Entry.data == [[5, 6, 7, 0xEE], [1, 2], [0xA, 0xB, 0xC], [4]]
+     | _, _ => false) = true := by decide +kernel
+
+/-- `NoStray` is needed: a non-empty `write` into a raw copy (`C01.script2`) is refused by it, and the
+archive that script produces is not `Contiguous` -/
+example : (∀ c ∈ C01.script2, Plain2 c) ∧ ¬ NoStray false C01.script2 := by decide
+
+example :
+    (match (C02Full.finalGhost2 C01.wext1 C01.script2).close C01.wext1 with
+     | some (es, gap, c) => decide (¬ C10.Contiguous (layoutOf es gap c []))
+     | none => false) = true := by decide +kernel
+
+/-- the encryption option is excluded by `Plain2`, and has to be: the ZipCrypto entry of `C02Full.scriptY`
+is not `LocalSizes` (flag bit 0) — the stream refuses it (`C10.stream_refuses`) -/
+example : ¬ (∀ c ∈ C02Full.scriptY, Plain2 c) := by decide
+
+example :
+    (match (C02Full.finalGhost2 C02Full.wext2 C02Full.scriptY).close C02Full.wext2 with
+     | some (es, gap, c) => decide (¬ C10.LocalSizes (layoutOf es gap c []))
      | none => false) = true := by decide +kernel
 
 end ZipVerif.Props.C10Writer
